@@ -1096,6 +1096,10 @@ class Object( object ):
             # sequence of unsigned bytes.
             data.service       |= 0x80
             result		= b''
+            if data.service in ( self.GA_ALL_RPY, self.GA_LST_RPY ) and 'path' in data:
+                clid,inid,_	= resolve( data.path )
+                assert clid == self.class_id and inid == self.instance_id, \
+                    "Path %r processed by wrong Object %r" % ( data.path['segment'], self )
             if data.service == self.GA_ALL_RPY:
                 # Get Attributes All.  Collect up the bytes representing the attributes.  Replace
                 # the place-holder .get_attribute_all=True with a real dotdict.  Returns only the
